@@ -123,6 +123,30 @@ def check_alias(rep, algopy, rng, tier):
                           dict(kind='alias', form=form, op=op, data=data.tolist(), got=numpy.asarray(got).tolist(), want=numpy.asarray(want).tolist()))
 
 
+def check_own_coefficient_operands(rep, algopy, rng, tier):
+    """x op= a for EVERY in-place operator and every coefficient block a = x.data[d, p] of x itself (a plain-array view sharing memory with x),
+    several directions: the same as with an independent copy of the block (scheduled, not drawn: every (operator, d, p))"""
+    UTPM = algopy.UTPM
+    for op in ('add', 'sub', 'mul', 'div'):
+        for D, P in ((1, 2), (3, 2), (2, 3)):
+            for shp in ((3,), (2, 2)):
+                for d_ in range(D):
+                    for p_ in range(P):
+                        data = dyadic_utpm(rng, D, P, shp, nz=True)
+                        rep.count('own coefficient block as operand', op)
+                        rep.case(('own-block', op, D, P, shp, d_, p_, data.tobytes().hex()[:32]), True, sample=dict(check='x op= x.data[d,p]', op=op, D=D, P=P, d=d_, p=p_))
+                        try:
+                            x = UTPM(data.copy())
+                            got = iop(op, x, x.data[d_, p_]).data
+                            want = iop(op, UTPM(data.copy()), data[d_, p_].copy()).data
+                        except Exception as e:
+                            rep.violation('alias:own-block:%s:exception' % op, 'x %s= x.data[%d,%d] raises %r' % (op, d_, p_, e), dict(kind='alias', form='x op= x.data[d,p]', op=op, data=data.tolist())); continue
+                        if not numpy.array_equal(numpy.asarray(got), numpy.asarray(want), equal_nan=True):
+                            rep.violation('alias:x op= x.data[d,p]:%s' % op, 'x %s= x.data[%d,%d] (D=%d, P=%d) differs from the same operation with an independent copy of the block' % (op, d_, p_, D, P),
+                                          dict(kind='alias', form='x op= x.data[d,p]', op=op, data=data.tolist(), d=d_, p=p_))
+                            break
+
+
 def check_store_model(rep, algopy, rng, tier):
     """kernels against the Coq store model, exact"""
     UTPM = algopy.UTPM
@@ -404,6 +428,7 @@ def main(tier, seed):
     check_tracer(rep, algopy, rng, tier)
     check_pullback_rules(rep, algopy, rng, tier)
     check_driver_arguments(rep, algopy, rng, tier)
+    check_own_coefficient_operands(rep, algopy, rng, tier)
     check_extractors(rep, algopy, rng, tier)
     import r9
     r9.c14_results_as_arguments(rep, algopy, rng, tier)
